@@ -34,7 +34,10 @@ type c11Piece struct {
 }
 
 // run drives the real pipeline and returns the chunks popped and the payloads' parts.
+var c11Payloads []sts.Payload // the payloads of the last c11Run (for the split checks)
+
 func c11Run(c c11Case) (chunks []c11Piece, bins [][]c11Piece, binSizes []int64, err error) {
+	c11Payloads = nil
 	chunk := c.C
 	if chunk == 0 {
 		chunk = c.P // as main/client.go does: chunk size defaults to the payload size
@@ -95,8 +98,52 @@ func c11Run(c c11Case) (chunks []c11Piece, bins [][]c11Piece, binSizes []int64, 
 		}
 		bins = append(bins, ps)
 		binSizes = append(binSizes, p.GetSize())
+		c11Payloads = append(c11Payloads, p)
 	}
 	return
+}
+
+func c11Pieces(p sts.Payload) (ps []c11Piece, sum int64) {
+	for _, part := range p.GetParts() {
+		b, l := part.GetSlice()
+		ps = append(ps, c11Piece{part.GetName(), b, b + l})
+		sum += l
+	}
+	return
+}
+
+// c11Splits: every payload is split after k parts, for every k, the way the sender does when a
+// transmission is accepted in part (it has looked at the parts before): the head keeps exactly
+// the first k parts, the tail gets exactly the rest, and both report the size of their parts.
+func c11Splits(c c11Case) string {
+	for k := 1; ; k++ {
+		if _, _, _, err := c11Run(c); err != nil {
+			return err.Error()
+		}
+		any := false
+		for i, p := range c11Payloads {
+			orig, _ := c11Pieces(p)
+			if len(orig) <= k {
+				continue
+			}
+			any = true
+			tail := p.Split(k)
+			if tail == nil {
+				return fmt.Sprintf("payload %d (%d parts): Split(%d) returned nothing", i, len(orig), k)
+			}
+			head, hsum := c11Pieces(p)
+			tl, tsum := c11Pieces(tail)
+			if fmt.Sprint(head) != fmt.Sprint(orig[:k]) || fmt.Sprint(tl) != fmt.Sprint(orig[k:]) {
+				return fmt.Sprintf("payload %d split after %d of %d parts: head lists %v and tail %v, the payload held %v (parts lost or listed twice)", i, k, len(orig), head, tl, orig)
+			}
+			if p.GetSize() != hsum || tail.GetSize() != tsum {
+				return fmt.Sprintf("payload %d split after %d parts: head reports %d bytes for parts adding up to %d, tail %d for %d", i, k, p.GetSize(), hsum, tail.GetSize(), tsum)
+			}
+		}
+		if !any {
+			return ""
+		}
+	}
 }
 
 // tiles checks that pieces of one file are non-empty, ascending, disjoint and cover want exactly.
@@ -187,7 +234,7 @@ func c11Check(c c11Case) string {
 			return "payload parts of " + name + ": " + msg
 		}
 	}
-	return ""
+	return c11Splits(c)
 }
 
 func TestC11(t *testing.T) {
